@@ -112,6 +112,17 @@ Theorem C05_thiele_rel_rename : forall pi : Z -> Z, (forall x y, pi x = pi y -> 
 Proof. exact thiele_rel_rename. Qed.
 Print Assumptions C05_thiele_rel_rename.
 
+(* ---- the backtracking search _kekule_component (algorithm-level model kekule_component, tied by correspondence): whatever
+   it yields - for any component, any sets, any buffer size, any cut, any fuel - is a list of exactly `size` bonds
+   (size = number of skeleton bonds of the component), each of order 1 or 2: the search never writes an aromatic, triple
+   or special bond.  (Loop invariant over the explicit stack; that each atom gets the right number of double bonds is NOT
+   proved for the search: the checker kekule_rel decides that output by output.) *)
+Theorem C05_kekule_component_forms : forall rings db db_start pyr bs maxy fuel ys r c,
+  kekule_component rings db db_start pyr bs maxy fuel = Ok (ys, r, c) ->
+  Forall (ok_form (Z.of_nat (fold_right (fun nl s => (List.length (snd nl) + s)%nat) O rings) / 2)) ys.
+Proof. exact kekule_component_forms. Qed.
+Print Assumptions C05_kekule_component_forms.
+
 (* ---- shape of every successful __prepare_rings result (what the search relies on): every skeleton atom has two or three
    skeleton neighbours; pyrroles and double_bonded are atoms of the skeleton *)
 Theorem C05_prepare_rings_shape : forall g sssr p, prepare_rings g sssr = Ok p ->
@@ -156,3 +167,14 @@ Theorem C05_kekule_driver_examples :
   end = true.
 Proof. exact kekule_driver_examples. Qed.
 Print Assumptions C05_kekule_driver_examples.
+
+Theorem C05_kekule_component_examples :
+  match kekule_component (ring_adj 6) [] 0 [] 7 10 1000 with Ok (ys, r, c) => (List.length ys =? 2)%nat && negb r && c | Err _ => false end = true /\
+  match kekule_component (ring_adj 5) [1] 1 [] 7 10 1000 with Ok (ys, r, c) => (List.length ys =? 1)%nat && negb r && c | Err _ => false end = true /\
+  match kekule_component (ring_adj 5) [] 0 [] 7 10 1000 with Ok (ys, r, c) => (List.length ys =? 0)%nat && r && c | Err _ => false end = true /\
+  match kekule_driver benzene_a [[1; 2; 3; 4; 5; 6]] (search_model 1000) (fun _ _ => Some 1) with
+  | Ok (g', r) => r && kekule_rel benzene_a g' && no_arom g'
+  | Err _ => false
+  end = true.
+Proof. exact kekule_component_examples. Qed.
+Print Assumptions C05_kekule_component_examples.
